@@ -16,7 +16,7 @@ import ast
 
 from ..cfg import cfg_of
 from ..dataflow import all_def_values, depends_on
-from ..effects import MPI_COLLECTIVES, classify_call, is_mpi_receiver
+from ..effects import MPI_COLLECTIVES, Unknown, ceval, classify_call, is_mpi_receiver
 from ..model import AnalysisError, FuncInfo, dotted, norm_stmt, unparse, walk_no_nested
 from .c05 import SOURCE_NAMES, _is_source_call, _passthrough_classes
 from .common import QUICK, calls_in, kwarg, parents_map, resolves_to_class
@@ -45,6 +45,39 @@ def _mpi_funcs(prog):
     return [f for f in prog.funcs if f.variant in (None, "mpi")]
 
 
+_INL: dict = {}
+
+
+def _mpi_funcs_inl(prog):
+    """the MPI-arm functions with their same-module helpers and closures expanded in place (see yawsa.inline): a
+    send / receive that was moved into a helper is seen where it happens, with the communicator, tag and payload
+    of that call site.  Helpers that were expanded everywhere they are called are not listed on their own."""
+    key = id(prog)
+    if key in _INL:
+        return _INL[key]
+    from ..inline import inlined
+
+    keep = {"iter_unordered", "_mpi_iter_unordered", "_mpi_root_task", "_mpi_worker_task", "write_patches", "scatter_data_chunk", "chunk_processing_task", "writer_task", "load_patches", "create_patch_centers", "bcast_array", "bcast_instance", "get_bcast_method", "ranks_on_same_node", "world_to_comm_rank", "on_root", "on_worker", "get_size", "use_mpi", "split_into_patches", "get_patch_centers"}
+    funcs = _mpi_funcs(prog)
+    mpi_ops = ("send", "recv", "bcast", "Bcast", "Barrier", "gather", "Split")
+    has_mpi = {f for f in funcs if any(isinstance(c.func, ast.Attribute) and c.func.attr in mpi_ops for c in calls_in(f))}
+    out = []
+    expanded_names = set()
+    for f in funcs:
+        if f.parent is not None:
+            continue
+        g = inlined(prog, f, keep=keep, only={h.name for h in has_mpi} - keep)
+        expanded_names |= set(getattr(g, "inlined_helpers", []))
+        out.append(g)
+    for f in funcs:
+        if f.parent is not None and f.qualname not in expanded_names:
+            out.append(f)
+    # a helper that was expanded into its callers is dropped when it performs MPI calls itself and is not a kept anchor
+    out = [g for g in out if not (g.qualname in expanded_names and g.name not in keep and getattr(g, "origin", g) in has_mpi)]
+    _INL[key] = out
+    return out
+
+
 def _comm_class(prog, fi: FuncInfo, recv: ast.AST) -> str:
     d = dotted(recv) or ""
     last = d.split(".")[-1]
@@ -61,6 +94,8 @@ def _comm_class(prog, fi: FuncInfo, recv: ast.AST) -> str:
         vals = [v for v in all_def_values(fi.node, recv.id) if v is not None]
         if any("Split" in unparse(v) or "get_comm" in unparse(v) for v in vals):
             return SUB
+        if len(vals) == 1 and isinstance(vals[0], (ast.Name, ast.Attribute)) and unparse(vals[0]) != recv.id:
+            return _comm_class(prog, fi, vals[0])  # a local that stands for another communicator expression
         if recv.id in [p.arg for p in allp]:
             return SUB
     return SUB
@@ -175,7 +210,7 @@ def rule_r1(prog, res) -> None:
 def rule_r2(prog, res) -> None:
     """point-to-point tag / communicator matching"""
     sends, recvs = {}, {}
-    for fi in _mpi_funcs(prog):
+    for fi in _mpi_funcs_inl(prog):
         for c, op, k in _mpi_calls(prog, fi):
             if op not in ("send", "recv", "isend", "irecv"):
                 continue
@@ -235,14 +270,14 @@ def rule_r3(prog, res) -> None:
     n = 0
     # all sends grouped by (class, tag): data vs sentinel, with the rank guard of the send
     sends = []
-    for fi in _mpi_funcs(prog):
+    for fi in _mpi_funcs_inl(prog):
         for c, op, k in _mpi_calls(prog, fi):
             if op != "send" or not c.args:
                 continue
             t = kwarg(c, "tag")
             tag = t.value if isinstance(t, ast.Constant) else None
             sends.append((fi, c, k, tag, _is_sentinel(prog, fi, c.args[0])))
-    for fi in _mpi_funcs(prog):
+    for fi in _mpi_funcs_inl(prog):
         env = prog.func_env(fi)
         for c, op, k in _mpi_calls(prog, fi):
             if op != "recv":
@@ -337,6 +372,10 @@ def _counting_receiver(prog, res, fi, c, k, tag, sends) -> None:
         raise AnalysisError(f"C06.R3: wildcard receive in {fi.short} is not inside a while loop")
     lp = loops[0]
     names = [n.id for n in ast.walk(lp.test) if isinstance(n, ast.Name)]
+    # `while True: if not <cond>: break`: the loop condition is the test of the break
+    for x in ast.walk(lp):
+        if isinstance(x, ast.If) and any(isinstance(y, ast.Break) for y in x.body + x.orelse):
+            names += [n.id for n in ast.walk(x.test) if isinstance(n, ast.Name)]
     decs = [x for x in ast.walk(lp) if isinstance(x, ast.AugAssign) and isinstance(x.op, ast.Sub) and isinstance(x.target, ast.Name) and x.target.id in names and isinstance(x.value, ast.Constant) and x.value.value == 1]
     if len(decs) != 1:
         res.violation("C06.R3", fi, c, "the receive loop neither stops at a sentinel nor counts one sentinel per sender", key_extra="recv-loop-no-termination-rule")
@@ -350,9 +389,21 @@ def _counting_receiver(prog, res, fi, c, k, tag, sends) -> None:
             in_else = any(y is decs[0] for s in x.orelse for y in ast.walk(s))
             is_pos = isinstance(x.test, ast.Compare) and isinstance(x.test.ops[0], (ast.Is, ast.Eq))
             # the other branch hands the payload on (to the writer, or to the consumer of this generator)
+            other_arm = list(x.orelse if in_body else x.body)
+            if not other_arm:
+                # `if sentinel: …; continue` followed by the hand-over: the rest of the block is the other arm
+                pmx = parents_map(fn)
+                blk = None
+                par = pmx.get(id(x))
+                for attr in ("body", "orelse"):
+                    if isinstance(getattr(par, attr, None), list) and x in getattr(par, attr):
+                        blk = getattr(par, attr)
+                arm = x.body if in_body else x.orelse
+                if blk is not None and arm and isinstance(arm[-1], (ast.Continue, ast.Break, ast.Return)):
+                    other_arm = blk[blk.index(x) + 1 :]
             proc_other = [
                 s
-                for s in (x.orelse if in_body else x.body)
+                for s in other_arm
                 if any((isinstance(y, ast.Call) and isinstance(y.func, ast.Attribute) and y.func.attr == "process_patches") or isinstance(y, (ast.Yield, ast.YieldFrom)) for y in ast.walk(s))
             ]
             if ((in_body and is_pos) or (in_else and not is_pos)) and proc_other:
@@ -369,7 +420,7 @@ def _counting_receiver(prog, res, fi, c, k, tag, sends) -> None:
         pos = [p for p in f.param_names() if p not in ("self", "cls")]
         for g in _mpi_funcs(prog):
             for cc in calls_in(g):
-                if f not in prog.resolve_call(g, cc).funcs():
+                if getattr(f, "origin", f) not in prog.resolve_call(g, cc).funcs():
                     continue
                 a = kwarg(cc, param)
                 if a is None and param in pos and pos.index(param) < len(cc.args):
@@ -472,97 +523,116 @@ def rule_r4(prog, res) -> None:
 
 
 def rule_r5(prog, res) -> None:
-    """dispatcher counter discipline"""
-    rt = prog.func("_mpi_root_task")
+    """dispatcher counter discipline, decided per path through one iteration of each of the two loops of the
+    dispatcher (symbolic store; helpers looked through; next() raising StopIteration and the failing assert are
+    explored as their own paths): first pass — exactly one message per worker rank, the counter grows by one iff
+    the message is a task; result loop — one receive, then exactly one message to that rank, the counter shrinks
+    by one iff the message is the sentinel; the loop runs while the counter is positive"""
+    from .. import symx
+
+    rt0 = prog.func("_mpi_root_task")
+    from ..inline import inlined
+
+    rt = inlined(prog, rt0, only={h.name for h in _mpi_funcs(prog) if h.module is rt0.module and h.name.startswith("_mpi") and h is not rt0} - {"_mpi_worker_task", "_mpi_iter_unordered"})
     res.touch(rt)
     fn = rt.node
-    incs = [x for x in walk_no_nested(fn) if isinstance(x, ast.AugAssign) and isinstance(x.target, ast.Name) and isinstance(x.value, ast.Constant) and x.value.value == 1]
-    if not incs:
-        raise AnalysisError("C06.R5: active-worker counter not found")
-    counter = incs[0].target.id
     pm = parents_map(fn)
+    fors = [x for x in walk_no_nested(fn) if isinstance(x, ast.For)]
+    whiles = [x for x in walk_no_nested(fn) if isinstance(x, ast.While)]
+    if not fors or not whiles:
+        raise AnalysisError("C06.R5: the two loops of the dispatcher (first pass over the ranks, result loop) were not found")
+    first, loop = fors[0], whiles[0]
+    paths = symx.explore(prog, rt, inline=None)
     ok = True
     why = []
     sends = [(c, _is_sentinel(prog, rt, c.args[0])) for c, op, k in _mpi_calls(prog, rt) if op == "send" and c.args]
-    for inc in incs:
-        blk = pm.get(id(inc))
-        body = None
-        for attr in ("body", "orelse", "finalbody"):
-            if isinstance(getattr(blk, attr, None), list) and inc in getattr(blk, attr):
-                body = getattr(blk, attr)
-        if isinstance(blk, ast.ExceptHandler):
-            body = blk.body
-        if body is None:
-            ok = False
-            why.append("counter update outside a recognisable block")
+    sent_nodes = {id(c) for c, sen in sends if sen}
+    task_nodes = {id(c) for c, sen in sends if not sen}
+
+    def strip(e):
+        return symx.strip_wrappers(e, (symx.LOOP,))
+
+    def value(e):
+        class T(ast.NodeTransformer):
+            def visit_Call(self, n):
+                n = self.generic_visit(n)
+                return n.args[0] if isinstance(n.func, ast.Name) and n.func.id == symx.LOOP and n.args else n
+
+        import copy
+
+        return ceval(T().visit(copy.deepcopy(e)), {})
+
+    counters = [x.target.id for x in walk_no_nested(fn) if isinstance(x, ast.AugAssign) and isinstance(x.target, ast.Name) and isinstance(x.value, ast.Constant) and x.value.value == 1]
+    if not counters:
+        raise AnalysisError("C06.R5: active-worker counter not found")
+    counter = counters[0]
+    n_first = n_loop = 0
+    for p in paths:
+        final = p.store.get(counter)
+        if final is None:
             continue
-        here = [(c, sen) for c, sen in sends if any(any(y is c for y in ast.walk(st)) for st in body)]
-        if isinstance(inc.op, ast.Add):
-            before = [c for c, sen in here if not sen and c.lineno <= inc.lineno]
-            if not before or any(sen for _, sen in here):
+        in_first = [ev for ev in p.calls("send") if id(first) in ev.loops and id(ev.node) in sent_nodes | task_nodes]
+        in_loop = [ev for ev in p.calls("send") if id(loop) in ev.loops and id(ev.node) in sent_nodes | task_nodes]
+        recvs = [ev for ev in p.calls("recv") if id(loop) in ev.loops]
+        E = strip(final)
+        inner = [y for y in ast.walk(E) if isinstance(y, ast.Call) and isinstance(y.func, ast.Name) and y.func.id == symx.LOOP]
+        try:
+            after_first = value(inner[0].args[0]) if (in_loop or recvs) and inner else value(E)
+            total = value(E)
+        except Unknown:
+            raise AnalysisError(f"C06.R5: cannot fold the counter expression {unparse(final)[:60]}") from None
+        if in_first or id(first) in {lid for ev in p.events for lid in ev.loops}:
+            n_first += 1
+            if len(in_first) != 1:
                 ok = False
-                why.append(f"`{norm_stmt(inc)}` is not paired with a task send in the same block")
-        else:
-            if not any(sen for _, sen in here) or any(not sen for _, sen in here):
+                why.append(f"a first-pass iteration sends {len(in_first)} messages to the rank instead of exactly one (every rank gets a task or a sentinel)")
+            else:
+                is_task = id(in_first[0].node) in task_nodes
+                if after_first != (1 if is_task else 0):
+                    ok = False
+                    why.append("a first-pass task is sent without counting the worker as active: its result is never collected" if is_task else "an unused rank is counted as active although it only received the sentinel: the result loop waits for it forever")
+        if recvs:
+            n_loop += 1
+            if len(in_loop) != 1:
                 ok = False
-                why.append(f"`{norm_stmt(inc)}` is not paired with a sentinel send in the same block")
-    # conversely: every sentinel sent inside the result loop retires a worker, every first-pass task activates one
-    wl_ = [x for x in walk_no_nested(fn) if isinstance(x, ast.While)]
-    fl_ = [x for x in walk_no_nested(fn) if isinstance(x, ast.For)]
-    def _block_of(node):
-        cur = node
-        while id(cur) in pm:
-            par = pm[id(cur)]
-            for attr in ("body", "orelse", "finalbody"):
-                blk_ = getattr(par, attr, None)
-                if isinstance(blk_, list) and cur in blk_:
-                    return blk_
-            cur = par
-        return []
-    for c_, sen in sends:
-        in_while = any(any(y is c_ for y in ast.walk(w)) for w in wl_)
-        in_first = any(any(y is c_ for y in ast.walk(f_)) for f_ in fl_)
-        blk_ = _block_of(c_)
-        upd = [s for s in blk_ if isinstance(s, ast.AugAssign) and isinstance(s.target, ast.Name) and s.target.id == counter]
-        if in_while and sen and not any(isinstance(u.op, ast.Sub) for u in upd):
-            ok = False
-            why.append("a sentinel is sent in the result loop without retiring the worker (counter not decremented): the loop never ends")
-        if in_first and not sen and not any(isinstance(u.op, ast.Add) for u in upd):
-            ok = False
-            why.append("a first-pass task is sent without counting the worker as active: its result is never collected")
+                why.append(f"a result-loop iteration answers the served rank with {len(in_loop)} messages instead of exactly one")
+            else:
+                is_sent = id(in_loop[0].node) in sent_nodes
+                delta = total - after_first
+                if delta != (-1 if is_sent else 0):
+                    ok = False
+                    why.append("a sentinel is sent in the result loop without retiring the worker (counter not decremented): the loop never ends" if is_sent else "the counter is decremented although the worker received another task: the root stops before its result arrives")
+    if n_first == 0 or n_loop == 0:
+        raise AnalysisError(f"C06.R5: no path through the first pass ({n_first}) / the result loop ({n_loop}) of the dispatcher was explored")
     # tasks are taken from the iterator exactly where they are sent
     for c, sen in sends:
         if not sen and not (isinstance(c.args[0], ast.Call) and (dotted(c.args[0].func) or "") == "next"):
             ok = False
             why.append("a task send does not take its payload directly from next(iterable)")
-    wl = [x for x in walk_no_nested(fn) if isinstance(x, ast.While)]
-    if not wl or unparse(wl[0].test).replace(" ", "") != f"{counter}>0":
-        ok = False
-        why.append("result loop does not run while the counter is positive")
-    # first pass covers every worker rank 1..size-1 with exactly one message
-    fl = [x for x in walk_no_nested(fn) if isinstance(x, ast.For) and "range(1" in unparse(x.iter)]
+    try:
+        t = {v: bool(ceval(loop.test, {counter: v})) for v in (0, 1, 2)}
+    except Unknown:
+        t = None
+    if t != {0: False, 1: True, 2: True}:
+        # `while True: if not counter > 0: break`
+        brk = [x for x in ast.walk(loop) if isinstance(x, ast.If) and any(isinstance(y, ast.Break) for y in x.body)]
+        t2 = None
+        for x in brk:
+            try:
+                t2 = {v: bool(ceval(x.test, {counter: v})) for v in (0, 1, 2)}
+            except Unknown:
+                continue
+        if t2 != {0: True, 1: False, 2: False}:
+            ok = False
+            why.append("result loop does not run while the counter is positive")
+    fl = [x for x in fors if "range(1" in unparse(x.iter)]
     if not fl:
         ok = False
         why.append("first pass over ranks 1..size-1 not found")
-    else:
-        tr = [s for s in fl[0].body if isinstance(s, ast.Try)]
-        if len(tr) != 1 or len(fl[0].body) != 1:
-            ok = False
-            why.append("first pass is not a single try/except per rank")
-        else:
-            hb = [s for h in tr[0].handlers for s in h.body]
-            if not any(sen for c, sen in sends if any(any(y is c for y in ast.walk(s)) for s in hb)):
-                ok = False
-                why.append("unused ranks do not receive a sentinel")
-            hts = {unparse(h.type) for h in tr[0].handlers}
-            if not any("StopIteration" in t for t in hts):
-                ok = False
-                why.append("exhausted iterator in the first pass is not handled")
-    # every result receive is followed by exactly one send to that rank
     if ok:
-        res.ok("C06.R5", res.site(rt), "counter +1 with each task send, -1 with each sentinel send; every rank gets a task or a sentinel; loop runs while workers are active")
+        res.ok("C06.R5", res.site(rt), f"counter +1 with each task send, -1 with each sentinel send; every rank gets a task or a sentinel; loop runs while workers are active ({n_first}+{n_loop} iteration paths)")
     else:
-        res.violation("C06.R5", rt, fn, "dispatcher counter discipline broken: " + "; ".join(why) + " — workers are left waiting or the root stops early", key_extra="dispatcher-counter")
+        res.violation("C06.R5", rt, fn, "dispatcher counter discipline broken: " + "; ".join(dict.fromkeys(why)) + " — workers are left waiting or the root stops early", key_extra="dispatcher-counter")
     # the destination is the rank of the enclosing loop: the first-pass loop variable, resp. the rank that was
     # just received together with a result (first element of the received tuple)
     def served_rank_names(loop) -> set:
@@ -577,6 +647,13 @@ def rule_r5(prog, res) -> None:
 
     def dest_ok(c_) -> bool:
         d = kwarg(c_, "dest")
+        for _ in range(4):  # a local that stands for another name (parameter of an expanded helper)
+            if isinstance(d, ast.Name):
+                vals = [v for v in all_def_values(fn, d.id) if v is not None]
+                if len(vals) == 1 and isinstance(vals[0], ast.Name):
+                    d = vals[0]
+                    continue
+            break
         if not isinstance(d, ast.Name):
             return False
         cur = c_
@@ -746,7 +823,7 @@ def rule_r6(prog, res) -> None:
 def rule_r3b(prog, res) -> None:
     """when the sentinel is sent by another rank than the data, a barrier among the data senders separates the two"""
     n = 0
-    for fi in _mpi_funcs(prog):
+    for fi in _mpi_funcs_inl(prog):
         if fi.variant != "mpi":
             continue
         calls = _mpi_calls(prog, fi)
